@@ -666,7 +666,16 @@ def series_attr(it, s, name):
     return arr_attr(it, s.arr(), name)
 
 
+class _ColsAdapter:
+    """undo-log view of a table's columns (same protocol as the guarded dict stores)"""
+
+    def __init__(self, t):
+        self.e = t.cols
+
+
 class LabelIndexer:
+    mergeable_store = True
+
     def __init__(self, table, col=None):
         self.table = table
         self.col = col
@@ -725,7 +734,15 @@ class LabelIndexer:
         if isinstance(key, (int, SV)) and not isinstance(key, bool):
             # single cell: the generic row is affected iff its label equals key
             cur = t.cols.get(col, XV(0, True))
-            t.write(it, col, scalar_ite(compare("==", t.index_e, key), val, cur), via="at")
+            own = compare("==", t.index_e, key)
+            if it.ctx.merge_mode and len(it.ctx.merge_guards) == it.ctx.merge_mode and is_scalar(val) and not isinstance(val, Opaque):
+                # store inside a speculatively executed branch: guarded by the branch conditions (undone if the merge is abandoned)
+                g = z3.And(*[x for x in it.ctx.merge_guards]) if it.ctx.merge_guards else z3.BoolVal(True)
+                it.ctx.undo.append((_ColsAdapter(t), col, t.cols.get(col)))
+                t.cols[col] = scalar_ite(SV(z3.And(g, truth_z(own))), val, cur)
+                t.writes.append((col, "at"))
+                return
+            t.write(it, col, scalar_ite(own, val, cur), via="at")
             return
         raise EngineError(f".loc/.at store with key {type(key).__name__}")
 
